@@ -249,6 +249,32 @@ impl C08 {
                 let pick = if want == Ordering::Greater { x } else { y };
                 exact_cmp((m.coefficient(), m.n_frac_digits()), (pick.c, pick.s)) == Ordering::Equal
             }), true),
+            // the same relations through references and through the std entry points built on them
+            ("&a == &b", catch(|| &a == &b), want == Ordering::Equal),
+            ("&a < &b", catch(|| &a < &b), want == Ordering::Less),
+            ("&a >= &b", catch(|| &a >= &b), want != Ordering::Less),
+            ("PartialOrd::le(&a, &b)", catch(|| PartialOrd::le(&a, &b)), want != Ordering::Greater),
+            ("std::cmp::min/max", catch(|| {
+                let (lo, hi) = (std::cmp::min(a, b), std::cmp::max(a, b));
+                exact_cmp((lo.coefficient(), lo.n_frac_digits()), (hi.coefficient(), hi.n_frac_digits())) != Ordering::Greater
+                    && exact_cmp((lo.coefficient(), lo.n_frac_digits()), if want == Ordering::Greater { (y.c, y.s) } else { (x.c, x.s) }) == Ordering::Equal
+            }), true),
+            ("sort / sort_unstable of [a, b]", catch(|| {
+                let mut v = [a, b];
+                v.sort();
+                let mut u = [b, a];
+                u.sort_unstable();
+                let ok = |w: &[Decimal; 2]| exact_cmp((w[0].coefficient(), w[0].n_frac_digits()), (w[1].coefficient(), w[1].n_frac_digits())) != Ordering::Greater;
+                ok(&v) && ok(&u)
+            }), true),
+            ("iter().max() / iter().min()", catch(|| {
+                let v = [a, b];
+                let (mx, mn) = (*v.iter().max().unwrap(), *v.iter().min().unwrap());
+                let hi = if want == Ordering::Greater { x } else { y };
+                let lo = if want == Ordering::Greater { y } else { x };
+                exact_cmp((mx.coefficient(), mx.n_frac_digits()), (hi.c, hi.s)) == Ordering::Equal && exact_cmp((mn.coefficient(), mn.n_frac_digits()), (lo.c, lo.s)) == Ordering::Equal
+            }), true),
+            ("a.cmp(&a) on one object", catch(|| a.cmp(&a) == Ordering::Equal && a.partial_cmp(&a) == Some(Ordering::Equal) && PartialEq::eq(&a, &a)), true),
         ];
         for (name, got, exp) in res {
             ctx.sub();
@@ -286,6 +312,11 @@ impl C08 {
             chk("archived(a) == archived(b)", aa == ab, want == Ordering::Equal);
             chk("archived(a) < archived(b)", aa < ab, want == Ordering::Less);
             chk("archived(a) > archived(b)", aa > ab, want == Ordering::Greater);
+            chk("archived(a) != archived(b)", aa != ab, want != Ordering::Equal);
+            chk("archived(a) <= archived(b)", aa <= ab, want != Ordering::Greater);
+            chk("archived(a) >= archived(b)", aa >= ab, want != Ordering::Less);
+            chk("a <= archived(b)", a <= *ab, want != Ordering::Greater);
+            chk("archived(a) >= b", *aa >= b, want != Ordering::Less);
             chk("archived(a).partial_cmp(archived(b))", aa.partial_cmp(ab) == Some(want), true);
             chk("archived(a).cmp(archived(b))", aa.cmp(ab) == want, true);
             chk("a == archived(b)", a == *ab, want == Ordering::Equal);
